@@ -386,8 +386,9 @@ def bfs(harness, cfg, depth, collector, seed=0, merge_all=False, keep_states=Fal
 # ----------------------------------------------------------------------------------------------
 # cooperative peer script (DESIGN section 5) -- decided from the world only
 class Script(object):
-    def __init__(self, cfg, open_name='OPEN_OK', ka_name='KA', peer_hold=90, refuse_first=0, connect_latency=0.0):
+    def __init__(self, cfg, open_name='OPEN_OK', ka_name='KA', peer_hold=90, refuse_first=0, connect_latency=0.0, silent_first=0):
         self.cfg = cfg
+        self.silent_first = silent_first           # the first n attempts of the world get no answer at all (SYN lost)
         self.connect_latency = connect_latency     # seconds between connectTCP and the peer's answer (accept or refuse)
         self.open_name = open_name
         self.ka_name = ka_name
@@ -421,6 +422,8 @@ class Script(object):
         if dis:
             return ('CLOSE_DONE', ll.index(dis[0]))
         con = w.connecting()
+        if con and w.sim.connectors.index(con[0]) < self.silent_first and w.due():
+            return ('TICK', 0)                   # nothing comes back: only the agent's own timers (and the TCP timeout) move things
         if con and self.connect_latency:
             ready = con[0].started_at + self.connect_latency
             if s.now < ready - 1e-9:
